@@ -341,9 +341,12 @@ impl<'a, F: IVP> SolOut for DefaultSolOut<'a, F> {
                                 self.next_idx = k;
                             }
 
-                            // Add the terminal event point to the output
-                            self.t.push(event_t);
-                            self.y.push(event_y);
+                            // Add the terminal event point to the output (unless it coincides
+                            // with the last reported sample, which then already is the event point)
+                            if self.t.last() != Some(&event_t) {
+                                self.t.push(event_t);
+                                self.y.push(event_y);
+                            }
                             
                             // Update prev_event before returning
                             self.prev_event.copy_from_slice(&self.g_curr_buf);
